@@ -67,15 +67,22 @@ def run(ctx, factor):
         repeated = it % 4 == 0
         doc = gen_rules.rule(g, {"ops", "logic", "times"}, nitems=1 if repeated else g.int(1, 2), depth=1)
         files = []
-        if g.chance(0.5):
+        two_files = it % 4 == 1       # every fourth case: two macro files defining the same name, in descending path order
+        if two_files or g.chance(0.5):
             doc["pattern"].insert(0, "@x")
             files.append({"macros": [{"name": "@x", "pattern": g.pick(["push", "mov", "p"])}]})
-            if g.chance(0.5):
-                files.append({"macros": [{"name": "@y", "pattern": "nop"}]})
+            if two_files:
+                files.append({"macros": [{"name": "@x", "pattern": "sub"}]})
+            elif g.chance(0.6):
+                # a second file; it may define the same name differently (the first definition met wins, so the
+                # order of the --macros files matters and must reach the library unchanged)
+                files.append({"macros": [{"name": g.pick(["@y", "@x", "@x"]), "pattern": g.pick(["nop", "sub", "q"])}]})
         binary = g.chance(0.35) and not repeated
         insts = gen_rules.realise(g, doc if not files else dict(doc, pattern=doc["pattern"][1:]))
         if files:
-            insts = [(a, m, o) for a, m, o in insts]
+            # the listing realises the rule as the FIRST file's definition of @x expands it
+            first_body = files[0]["macros"][0]["pattern"]
+            insts = [("%x" % 0xff0, first_body if len(first_body) > 1 else "pop", ["%rbp"])] + [(a, m, o) for a, m, o in insts]
         body = insts + gen_rules.realise(g, dict(doc, pattern=doc["pattern"][-1:]))
         if repeated or g.chance(0.4):
             # listings of relocatable objects restart addresses per section: the same records (and so the same
@@ -84,7 +91,14 @@ def run(ctx, factor):
         text = gen.render_listing(body, g)
         rule_path = sc.write(impl.dump_yaml(doc), ".yaml")
         in_path = obj if binary else sc.write(text, ".s")
-        mpaths = [sc.write(impl.dump_yaml(f), ".macros.yaml") for f in files]
+        # file names in ascending or descending path order, whatever the order on the command line
+        stems = ["a_first", "z_second"] if (g.chance(0.5) and not two_files) else ["z_first", "a_second"]
+        mpaths = []
+        for f, stem in zip(files, stems):
+            mp = os.path.join(sc.dir, "%s_%d.macros.yaml" % (stem, it))
+            with open(mp, "w") as fh:
+                fh.write(impl.dump_yaml(f))
+            mpaths.append(mp)
         allm, ao = repeated or g.chance(0.5), g.chance(0.5)
         args = ["-p", rule_path, "-b" if binary else "-s", in_path]
         if allm:
